@@ -1022,4 +1022,72 @@ theorem SO3Log_norm_small (eps : ℝ) (q : Quat ℝ) (h1 : eps ≤ 1 / 2) (hq : 
     rw [e, abs_neg, abs_of_nonneg (by linarith)]
     field_simp
 
+/-! ## exact ties: `torch.min` keeps the FIRST minimal entry (pass 4, class 20) -/
+
+theorem argminFrom_lt_of_moved (xs : List ℝ) (j0 : Nat) (b : ℝ) (jb : Nat)
+    (h : argminFrom xs j0 (b, jb) ≠ (b, jb)) : (argminFrom xs j0 (b, jb)).1 < b := by
+  induction xs generalizing j0 b jb with
+  | nil => simp [argminFrom] at h
+  | cons x xs ih =>
+    unfold argminFrom at h ⊢
+    by_cases hx : x < b
+    · simp only [lt_real, hx, decide_true, if_true] at h ⊢
+      exact lt_of_le_of_lt (argminFrom_spec xs (j0 + 1) x j0).1 hx
+    · simp only [lt_real, hx, decide_false, Bool.false_eq_true, if_false] at h ⊢
+      exact ih (j0 + 1) b jb h
+
+theorem argminFrom_first (xs : List ℝ) (j0 : Nat) (b : ℝ) (jb : Nat) (hjb : jb < j0) :
+    ∀ (i : Nat) (x : ℝ), xs[i]? = some x → j0 + i < (argminFrom xs j0 (b, jb)).2 → (argminFrom xs j0 (b, jb)).1 < x := by
+  induction xs generalizing j0 b jb with
+  | nil => intro i x hx; simp at hx
+  | cons y ys ih =>
+    intro i x hx hlt
+    unfold argminFrom at hlt ⊢
+    set best' : ℝ × Nat := if Scalar.lt y (b, jb).1 then (y, j0) else (b, jb) with hb'
+    have hb2 : best'.2 < j0 + 1 := by
+      rw [hb']; split_ifs <;> simp <;> omega
+    have hb1 : best'.1 ≤ y := by
+      rw [hb']; simp only [lt_real]
+      by_cases hy : y < b
+      · simp [hy]
+      · simp [hy]; exact not_lt.mp hy
+    have e : argminFrom ys (j0 + 1) best' = argminFrom ys (j0 + 1) (best'.1, best'.2) := rfl
+    cases i with
+    | zero =>
+      simp only [List.getElem?_cons_zero, Option.some.injEq] at hx
+      subst hx
+      have hne : argminFrom ys (j0 + 1) (best'.1, best'.2) ≠ (best'.1, best'.2) := by
+        intro hh
+        rw [e, hh] at hlt
+        simp only at hlt; omega
+      rw [e]
+      exact lt_of_lt_of_le (argminFrom_lt_of_moved ys (j0 + 1) best'.1 best'.2 hne) hb1
+    | succ i' =>
+      simp only [List.getElem?_cons_succ] at hx
+      rw [e] at hlt ⊢
+      exact ih (j0 + 1) best'.1 best'.2 hb2 i' x hx (by omega)
+
+/-- entries before the returned position are strictly larger than the returned minimum -/
+theorem argmin?_first (l : List ℝ) (v : ℝ) (j : Nat) (h : argmin? l = some (v, j)) :
+    ∀ (i : Nat) (x : ℝ), l[i]? = some x → i < j → v < x := by
+  cases l with
+  | nil => simp [argmin?] at h
+  | cons y ys =>
+    simp only [argmin?, Option.some.injEq] at h
+    intro i x hx hij
+    cases i with
+    | zero =>
+      simp only [List.getElem?_cons_zero, Option.some.injEq] at hx
+      subst hx
+      have hne : argminFrom ys 1 (y, 0) ≠ (y, 0) := by
+        intro hh; rw [hh] at h
+        have := (Prod.mk.injEq _ _ _ _ ▸ h).2
+        omega
+      have := argminFrom_lt_of_moved ys 1 y 0 hne
+      rw [h] at this; exact this
+    | succ i' =>
+      simp only [List.getElem?_cons_succ] at hx
+      have := argminFrom_first ys 1 y 0 (by omega) i' x hx (by rw [h]; simp; omega)
+      rw [h] at this; exact this
+
 end PP.Traj
